@@ -165,7 +165,7 @@ func valueFromBuf(r *bufio.Reader) (value, error) {
 		return math.Float64frombits(stdbinary.BigEndian.Uint64(p[:])), nil
 
 	case typeSTR:
-		k, err := uvarintFromBuf(r)
+		k, err := sizeFromBuf(r)
 		if err != nil {
 			return nil, err
 		}
